@@ -131,6 +131,8 @@ pub struct PendingRpc {
     pub params: Value,
     pub label: String,
     pub tx: Option<oneshot::Sender<SimResult>>,
+    /// deliberately delayed by the explorer (skipped by the default answer order)
+    pub stalled: bool,
 }
 
 #[derive(Clone, Debug, PartialEq, Eq)]
@@ -233,12 +235,43 @@ impl Sim {
             p.label.hash(h);
             p.params.to_string().hash(h);
             p.tx.is_some().hash(h);
+            p.stalled.hash(h);
         }
         self.next_rpc.hash(h);
     }
 
+    /// First four hex digits of the payment hash a request concerns (None for getinfo etc.).
+    pub fn hash_tag(method: Method, params: &Value) -> Option<String> {
+        match method {
+            Method::Pay => {
+                let b = params.get("bolt11").and_then(|b| b.as_str())?;
+                let inv = b.parse::<lightning_invoice::SignedRawBolt11Invoice>().ok()?;
+                let h = inv.payment_hash()?;
+                Some(hex::encode(AsRef::<[u8]>::as_ref(&h.0))[..4].to_string())
+            }
+            Method::Getinfo => None,
+            _ => {
+                let s = params.to_string();
+                // the first 64-hex-digit run in the parameters
+                let bytes = s.as_bytes();
+                let mut run = 0;
+                for (i, c) in bytes.iter().enumerate() {
+                    if c.is_ascii_hexdigit() {
+                        run += 1;
+                        if run == 64 && bytes.get(i + 1).map(|n| !n.is_ascii_hexdigit()).unwrap_or(true) {
+                            return Some(s[i + 1 - 64..i + 1 - 60].to_string());
+                        }
+                    } else {
+                        run = 0;
+                    }
+                }
+                None
+            }
+        }
+    }
+
     fn label_for(&mut self, method: Method, params: &Value) -> String {
-        let base = match method {
+        let mut base = match method {
             Method::Listsendpays => format!(
                 "listsendpays[{}]",
                 params.get("status").and_then(|s| s.as_str()).unwrap_or("*")
@@ -256,6 +289,10 @@ impl Sim {
             }
             m => m.name().to_string(),
         };
+        if let Some(t) = Self::hash_tag(method, params) {
+            base.push('@');
+            base.push_str(&t);
+        }
         let c = self.counters.entry(base.clone()).or_insert(0);
         *c += 1;
         format!("{}#{}", base, c)
@@ -285,6 +322,7 @@ impl Sim {
             params,
             label,
             tx: Some(tx),
+            stalled: false,
         });
         Ok(rx)
     }
@@ -334,6 +372,13 @@ impl Sim {
             parts_created: 0,
             reject,
         });
+    }
+
+    /// Stable label of a pay command: per-hash numbering.
+    pub fn cmd_label(&self, cmd: usize) -> String {
+        let c = &self.pays[cmd];
+        let n = self.pays.iter().filter(|x| x.hash == c.hash && x.id <= c.id).count();
+        format!("cmd@{}#{}", &c.hash[..4.min(c.hash.len())], n)
     }
 
     pub fn running_pay(&self, hash: &str) -> Option<&PayCmd> {
